@@ -429,6 +429,9 @@ def style_case(way, fg, bg, attrs):
             return [("style_codes|per-call|raises", "AnsiFormatter() %r" % (f,))]
         # message without any tag
         judge("per-call|message-without-tags", _real(f.format, X, make_style(None, fg, bg, attrs)))
+        # tag-free text with '<' / '>' as plain characters ("'<'/'>' as plain characters" is in the quantifier)
+        judge("per-call|message-with-plain-angle-brackets",
+              _real(f.format, "if a < b then c > d", make_style(None, fg, bg, attrs)), "if a < b then c > d")
         # message that also carries a tagged part: the per-call style applies to the untagged part
         out = _real(f.format, "%s<b>y</b>" % X, make_style(None, fg, bg, attrs))
         if isinstance(out, _Raised):
